@@ -36,11 +36,11 @@ func leEdges(isA func(ssa.Value) bool, C int64) EdgePred {
 		if ifi == nil {
 			return false
 		}
-		K, ok := constOperand(ifi.Cond)
+		K, ok := constOperand(condOf(b))
 		if !ok {
 			return false
 		}
-		tab := condTable(ifi.Cond, isA, func(v ssa.Value) bool { k, ok := constInt(v); return ok && k == K })
+		tab := condTable(condOf(b), isA, func(v ssa.Value) bool { k, ok := constInt(v); return ok && k == K })
 		takes := func(t tri) int {
 			if t == triTrue {
 				return 0
@@ -207,11 +207,11 @@ func edgeIntBound(isA func(ssa.Value) bool, lo, hi int64, nonNeg bool) EdgePred 
 		if ifi == nil {
 			return false
 		}
-		K, ok := constOperand(ifi.Cond)
+		K, ok := constOperand(condOf(b))
 		if !ok {
 			return false
 		}
-		tab := condTable(ifi.Cond, isA, func(v ssa.Value) bool { k, ok := constInt(v); return ok && k == K })
+		tab := condTable(condOf(b), isA, func(v ssa.Value) bool { k, ok := constInt(v); return ok && k == K })
 		if tab[0] == triUnknown && tab[1] == triUnknown && tab[2] == triUnknown {
 			return false
 		}
